@@ -58,6 +58,78 @@ func govcResolverOverlap() string {
 	return ""
 }
 
+// the chain of resolver calls survives a phase without context: ClearContext while a resolver call is still
+// returning, then SetContext again
+func govcResolverOverlapIdle() string {
+	var active, maxActive atomic.Int32
+	hold := make(chan struct{})
+	var first atomic.Bool
+	rc := NewRefCount[*int](nil, false, nil, nil, func(ctx context.Context, released func()) (*int, func(), error) {
+		n := active.Add(1)
+		for {
+			m := maxActive.Load()
+			if n <= m || maxActive.CompareAndSwap(m, n) {
+				break
+			}
+		}
+		if !first.Swap(true) {
+			<-ctx.Done()
+			<-hold
+		}
+		active.Add(-1)
+		v := 1
+		return &v, nil, nil
+	})
+	rc.AddRef(func(bool, *int, error) {})
+	c1, cc1 := context.WithCancel(context.Background())
+	defer cc1()
+	rc.SetContext(c1)
+	time.Sleep(govcStep)
+	rc.ClearContext()
+	time.Sleep(govcStep)
+	c2, cc2 := context.WithCancel(context.Background())
+	defer cc2()
+	rc.SetContext(c2)
+	time.Sleep(3 * govcStep)
+	m := maxActive.Load()
+	close(hold)
+	if m > 1 {
+		return fmt.Sprintf("SetContext; ClearContext while the resolver call was still returning; SetContext: %d resolver calls were running at the same time", m)
+	}
+	return ""
+}
+
+// a value resolved under one context is not handed out under another one (keepUnref, no references while
+// the context changes)
+func govcStaleAcrossContexts() string {
+	var calls atomic.Int32
+	rc := NewRefCount[*int](nil, true, nil, nil, func(ctx context.Context, released func()) (*int, func(), error) {
+		v := int(calls.Add(1))
+		return &v, nil, nil
+	})
+	c1, cc1 := context.WithCancel(context.Background())
+	rc.SetContext(c1)
+	wctx, wc := context.WithTimeout(context.Background(), 2*time.Second)
+	defer wc()
+	v1, ref, err := rc.Wait(wctx)
+	if err != nil || v1 == nil {
+		return ""
+	}
+	ref.Release()
+	c2, cc2 := context.WithCancel(context.Background())
+	defer cc2()
+	rc.SetContext(c2)
+	cc1()
+	v2, ref2, err := rc.Wait(wctx)
+	if ref2 != nil {
+		defer ref2.Release()
+	}
+	if err == nil && v2 == v1 {
+		return "keepUnref: value resolved under context 1, last reference released, SetContext(context 2), context 1 cancelled: Wait returned the value resolved under context 1"
+	}
+	return ""
+}
+
 // documented arguments never panic: nil callback on a resolved RefCount
 func govcNilCallback() (msg string) {
 	defer func() {
@@ -152,6 +224,10 @@ func TestGovcReplay(t *testing.T) {
 	switch {
 	case strings.Contains(rf.Obligation, "nilfunc") || strings.Contains(rf.Obligation, "nilderef"):
 		scenarios = []func() string{govcNilCallback}
+	case strings.Contains(rf.Obligation, ".HD") || strings.Contains(rf.Obligation, "go1.chain"):
+		scenarios = []func() string{govcResolverOverlapIdle, govcResolverOverlap}
+	case strings.Contains(rf.Obligation, ".N6"):
+		scenarios = []func() string{govcStaleAcrossContexts}
 	case strings.Contains(rf.Obligation, ".D1") || strings.Contains(rf.Obligation, "handover") || strings.Contains(rf.Obligation, "go1"):
 		scenarios = []func() string{govcResolverOverlap}
 	}
